@@ -415,11 +415,41 @@ def remove_cons_vars_from_problem(
        The variables and constraints to remove from the model.
 
     """
+    context = get_context(model)
+    restore = []
+    if context:
+        # the terms of a removed variable leave the remaining constraints with
+        # it: remember them so that undoing the removal can put them back
+        variables = [x for x in what if isinstance(x, model.problem.Variable)]
+        if variables:
+            leaving = {x.name for x in what}
+            for constraint in model.constraints:
+                if constraint.name in leaving:
+                    continue
+                coefficients = {
+                    var: coef
+                    for var, coef in constraint.get_linear_coefficients(
+                        variables
+                    ).items()
+                    if coef != 0
+                }
+                if coefficients:
+                    restore.append((constraint, coefficients))
+
     model.solver.remove(what)
 
-    context = get_context(model)
     if context:
-        context(partial(model.solver.add, what))
+
+        def put_back() -> None:
+            model.solver.add(what)
+            if restore:
+                # additions are lazy: a constraint that an earlier undo step
+                # put back is not attached to the problem until the update
+                model.solver.update()
+            for constraint, coefficients in restore:
+                constraint.set_linear_coefficients(coefficients)
+
+        context(put_back)
 
 
 def add_absolute_expression(
